@@ -530,6 +530,19 @@ def run(chk):
     if not n_sites:
         raise core.AnalysisBroken("no call of update_record_buffer found in Parser.cpp")
 
+    # ---- C20.signidx: a signed index that is counted down never reaches an unsigned use while it may be negative
+    r_sg = chk.rule("C20.signidx", "a signed local that its function counts down (--v, v -= k, a search loop `for (; v >= 0; --v)`) is never converted to an unsigned type or used as a subscript at a point where it may be negative: sign analysis over the structured control flow (if/else chains refine on v < 0 / v >= 0, a branch that throws or returns does not flow on, after a count-down loop the variable may be -1)", floor=8)
+    from verif import signidx
+    for f in fx.fns:
+        if not f.get("body") or not f["file"].startswith(core.REPO + "/opm/"):
+            continue
+        rep, tracked = signidx.analyse(f)
+        if not tracked:
+            continue
+        chk.instance(r_sg, f["q"] + ":" + ",".join(sorted(tracked)), sample=dict(function=f["q"], counted_down=sorted(tracked), unsigned_uses_while_possibly_negative=len(rep), in_entry_closure=f["q"] in closure))
+        for line, var, text in rep:
+            chk.violation(r_sg, "%s:%s:%s" % (f["q"], var, text[:30]), "%s: `%s` may be negative (it is counted down, and no test or assignment on this path rules -1 out) where it is used as an unsigned index in `%s`: the conversion wraps to a huge index and the access is outside the container (no exception)" % (f["q"], var, text), f["file"], line)
+
     r_cu = chk.rule("C20.cursor", "token cursors (an index compared with V.size(), used in V[idx] and advanced by the code): every V[idx] is preceded on every path by a test that establishes idx < V.size() since the last advance; where the end is tested with equality the cursor is never advanced from a state that may already be the end", floor=40)
     n_cursors = 0
     for f in fx.fns:
